@@ -49,6 +49,42 @@ theorem runFrom_append {a b : List Sax} {st st' : HSt} (h : runFrom st a = .ok s
     | ok st1 => simp only [hs] at h ⊢; exact ih h
 
 
+/-! ### attribute order and extra attributes do not matter -/
+
+/-- two SAX events the handler cannot tell apart: same element name, same `val` and `channel`
+    (any order of the attributes, any further attributes) -/
+def attrEquiv : Sax → Sax → Prop
+  | .start n a, .start m b => n = m ∧ get? a sVal = get? b sVal ∧ get? a sChannel = get? b sChannel
+  | .stop n, .stop m => n = m
+  | _, _ => False
+
+theorem step_attrs_congr (st : HSt) (n : S) (a b : List (S × S)) (hv : get? a sVal = get? b sVal)
+    (hc : get? a sChannel = get? b sChannel) : step st (.start n a) = step st (.start n b) := by
+  simp only [step, hv, hc]
+
+theorem step_congr (st : HSt) (e e' : Sax) (h : attrEquiv e e') : step st e = step st e' := by
+  cases e <;> cases e' <;> simp only [attrEquiv] at h
+  · obtain ⟨rfl, hv, hc⟩ := h; exact step_attrs_congr st _ _ _ hv hc
+  · subst h; rfl
+
+/-- event streams that agree element by element in that sense -/
+def attrEquivL : List Sax → List Sax → Prop
+  | [], [] => True
+  | a :: r, b :: s => attrEquiv a b ∧ attrEquivL r s
+  | _, _ => False
+
+theorem runFrom_congr : ∀ (evs evs' : List Sax), attrEquivL evs evs' →
+    ∀ st, runFrom st evs = runFrom st evs'
+  | [], [], _, _ => rfl
+  | a :: r, b :: s, h, st => by
+    obtain ⟨he, hr⟩ := h
+    simp only [runFrom, step_congr st _ _ he]
+    split
+    · rfl
+    · exact runFrom_congr r s hr _
+  | [], _ :: _, h, _ => by simp [attrEquivL] at h
+  | _ :: _, [], h, _ => by simp [attrEquivL] at h
+
 /-! ### the effect of a rendered document -/
 
 /-- hypotheses on an abstract document (what the renderer guarantees) -/
@@ -382,5 +418,51 @@ theorem notifyChanged_eq (vars ch : PyDict S S) :
   unfold notifyChanged
   rw [foldl_notify]
   simp
+
+
+/-! ### what the judge's expected values mean, variable by variable -/
+
+theorem get?_filter_contains (vars m : PyDict S S) (n : S) :
+    get? (m.filter fun p => contains vars p.1) n = if contains vars n then get? m n else none := by
+  induction m with
+  | nil => simp
+  | cons p r ih =>
+    obtain ⟨k, v⟩ := p
+    by_cases hc : contains vars k = true
+    · simp only [List.filter_cons, hc, if_true]
+      by_cases hk : k = n
+      · subst hk; simp [get?, hc]
+      · simp [get?, hk, ih]
+    · simp only [List.filter_cons, hc]
+      by_cases hk : k = n
+      · subst hk
+        have : contains vars k = false := by simpa using hc
+        simp [this] at ih ⊢
+        simpa [this] using ih
+      · simp [get?, hk, ih]
+
+theorem nodup_keys_filter (m : PyDict S S) (f : S × S → Bool) (h : (keys m).Nodup) :
+    (keys (m.filter f)).Nodup := by
+  unfold keys at *
+  exact (List.filter_sublist.map _).nodup h
+
+/-- after the expected update: a service variable holds the event's master value for it if there
+    is one, else its old value; nothing that is not a service variable appears -/
+theorem get?_expected (vars : PyDict S S) (d : LcDoc) (n : S) :
+    get? (applyAll vars (relevant vars (master0 d))) n =
+      match get? vars n with
+      | none => none
+      | some old => some ((get? (master0 d) n).getD old) := by
+  have hnd : (keys (relevant vars (master0 d))).Nodup :=
+    nodup_keys_filter _ _ (nodup_keys_ofList _)
+  unfold applyAll
+  rw [get?_foldl_set, get?_reverse_nodup _ hnd]
+  unfold relevant
+  rw [get?_filter_contains]
+  cases hv : get? vars n with
+  | none => simp [contains, hv]
+  | some old =>
+    simp only [contains, hv, Option.isSome_some, if_true]
+    cases get? (master0 d) n <;> rfl
 
 end Upnp.C19
